@@ -347,23 +347,23 @@ impl DateFilter for ds::MonthdayRange {
             } => {
                 let year = date.year();
 
+                if let (Date::Fixed { year: fixed_year, month, day }, true) = (*start, start == end)
+                {
+                    let years = match fixed_year {
+                        Some(fixed_year) => i32::from(fixed_year)..=i32::from(fixed_year),
+                        None => year - 1..=year + 1,
+                    };
+
+                    return is_open_from_intervals(
+                        date,
+                        single_day_intervals(month, day, years, *start_offset, *end_offset),
+                    );
+                }
+
                 if let Some(interval) =
                     single_interval_from_bounds((*start, *start_offset), (*end, *end_offset))
                 {
                     return interval.contains(&date);
-                }
-
-                if let (Date::Fixed { year: None, month, day }, true) = (*start, start == end) {
-                    return is_open_from_intervals(
-                        date,
-                        single_day_intervals(
-                            month,
-                            day,
-                            year - 1..=year + 1,
-                            *start_offset,
-                            *end_offset,
-                        ),
-                    );
                 }
 
                 is_open_from_bounds(
@@ -442,23 +442,23 @@ impl DateFilter for ds::MonthdayRange {
             } => {
                 let year = date.year();
 
+                if let (Date::Fixed { year: fixed_year, month, day }, true) = (*start, start == end)
+                {
+                    let years = match fixed_year {
+                        Some(fixed_year) => i32::from(fixed_year)..=i32::from(fixed_year),
+                        None => year - 1..=year + 10,
+                    };
+
+                    return Some(next_change_from_intervals(
+                        date,
+                        single_day_intervals(month, day, years, *start_offset, *end_offset),
+                    ));
+                }
+
                 if let Some(interval) =
                     single_interval_from_bounds((*start, *start_offset), (*end, *end_offset))
                 {
                     return Some(next_change_from_intervals(date, [interval].into_iter()));
-                }
-
-                if let (Date::Fixed { year: None, month, day }, true) = (*start, start == end) {
-                    return Some(next_change_from_intervals(
-                        date,
-                        single_day_intervals(
-                            month,
-                            day,
-                            year - 1..=year + 10,
-                            *start_offset,
-                            *end_offset,
-                        ),
-                    ));
                 }
 
                 Some(next_change_from_bounds(
